@@ -36,6 +36,14 @@ def hash (k : Ptr) : Option Nat :=
 
 def empty : Table := List.replicate Generated.hashTableSize []
 
+/-- `p_hash_table_new` with scripted allocation results (handle, bucket array): the empty table when both succeed,
+    otherwise NULL (`none`); the second component is the number of blocks still allocated afterwards (the handle is
+    given back when the bucket array cannot be had) -/
+def newTable (handleOk arrayOk : Bool) : Option Table × Nat :=
+  if !handleOk then (none, 0)
+  else if !arrayOk then (none, 0)      -- `p_free (ret)`
+  else (some empty, 2)
+
 /-- `pp_hash_table_find_node` -/
 def findNode (c : Chain) (k : Ptr) : Option Ptr :=
   match c with
